@@ -757,7 +757,7 @@ fn run_case(case: &Value, out: &mut Vec<Value>, stats: &mut BTreeMap<String, usi
         (0..n).filter(|i| cur[*i].is_some()).filter_map(|i| uri_of(&files[i].path).and_then(|u| a.get_file_id(&u)).map(|id| (files[i].path.clone(), id))).collect()
     };
     let survivors = |cur: &Vec<Option<String>>| -> Vec<(String, String)> { (0..n).filter_map(|j| cur[j].clone().map(|t| (files[j].path.clone(), t))).collect() };
-    let shared_entities = || -> BTreeSet<String> {
+    let shared_entities = || -> BTreeMap<String, BTreeSet<usize>> {
         let mut per: BTreeMap<String, BTreeSet<usize>> = BTreeMap::new();
         for i in 0..n {
             for txt in [files[i].text.clone(), files[i].alt.clone()] {
@@ -777,7 +777,7 @@ fn run_case(case: &Value, out: &mut Vec<Value>, stats: &mut BTreeMap<String, usi
                 }
             }
         }
-        per.into_iter().filter(|(_, fs)| fs.len() > 1).map(|(t, _)| t).collect()
+        per.into_iter().filter(|(_, fs)| fs.len() > 1).collect()
     };
     let mut baseline_dump = dump(&a, &live_of(&a, &cur));
     let mut baseline_sizes = sizes(&a);
@@ -832,7 +832,16 @@ fn run_case(case: &Value, out: &mut Vec<Value>, stats: &mut BTreeMap<String, usi
                             return judged;
                         }
                         let (b, af) = diff_lines(&baseline_dump, &d);
-                        let sig = if is_shared_entity_diff(&b, &af, &shared_entities()) {
+                        // the files this step re-submitted
+                        let resub: BTreeSet<usize> = if kind == "batch" {
+                            step[1].as_array().map(|v| v.iter().map(|x| x.as_u64().unwrap_or(0) as usize).collect()).unwrap_or_default()
+                        } else {
+                            [i].into_iter().collect()
+                        };
+                        let shared = shared_entities();
+                        let shared_names: BTreeSet<String> = shared.keys().cloned().collect();
+                        let touches_shared = shared.values().any(|fs| fs.iter().any(|j| resub.contains(j)));
+                        let sig = if touches_shared || is_shared_entity_diff(&b, &af, &shared_names) {
                             "C08:resubmit-changes-results-of-entity-with-contributions-from-another-file".to_string()
                         } else if with_lib && !remap_lib && {
                             // causal test: the same case with the library files inside the main workspace
